@@ -1,6 +1,6 @@
 #!/bin/sh
 # every confirmed seeded change must be detected (exit 1) by the quick tier of the check of its property
-cd /verif
+cd "$(dirname "$0")/.."      # (with TRY_REPO set, tools/try_seeded.py works on that scratch worktree instead of /repo)
 fail=0
 for d in seeded/*/; do
   id=$(basename $d); prop=${id%%-*}
